@@ -27,6 +27,12 @@ def corpus():
                 if f.endswith(".mfront"):
                     for i in ifs:
                         pairs.append((os.path.join(root, f), i))
+    # /verif-owned inputs with shapes the repository's own files do not have (arrays of variables with bounds on single elements, one / two
+    # user defined tangent operators): always part of the sample, and each other's neighbours in the same-invocation histories
+    own = os.path.join(VERIF, "behaviours", "gen36")
+    for f in sorted(os.listdir(own)) if os.path.isdir(own) else []:
+        if f.endswith(".mfront"):
+            pairs.append((os.path.join(own, f), "generic"))
     return pairs
 
 
@@ -212,9 +218,11 @@ def check_pair(root, idx, pair, all_pairs, variants, seed):
             # family); only the files the baseline run wrote for this input are compared, and only when the whole invocation succeeds
             fam = [q for q in all_pairs if q[1] == pair[1] and os.path.dirname(q[0]) == os.path.dirname(pair[0]) and q != pair]
             others = [fam[(idx * 17 + 5 * k + vi) % len(fam)] for k in range(2)] if fam else []
+            if pair[0].startswith(os.path.join(VERIF, "behaviours", "gen36") + os.sep):
+                others = fam   # the /verif-owned inputs are few: each is generated after all the others
             bad = False
             # second option set for behaviours: a keyword given on the command line applies to every input of the invocation
-            optsets = [()] + ([("--@SelectedModellingHypothesis=Tridimensional",)] if pair[1] == "generic" and "/behaviours" in pair[0] else [])
+            optsets = [()] + ([("--@SelectedModellingHypothesis=Tridimensional",)] if pair[1] == "generic" and "/tests/behaviours" in pair[0] else [])
             for opts in optsets:
                 ref_o, rc_o = ref, rc0
                 if opts:
@@ -310,6 +318,7 @@ def main():
             for i, p in enumerate(pairs):
                 byfam.setdefault(os.path.basename(os.path.dirname(p[0])) + ":" + p[1], []).append(i)
             chosen = [i for i, p in enumerate(pairs) if foreign_inputs(p)][:12]   # the pairs that can meet a name clash in another directory are always in
+            chosen += [i for i, p in enumerate(pairs) if p[0].startswith(os.path.join(VERIF, "behaviours", "gen36") + os.sep)]
             fams = sorted(byfam)
             while len(chosen) < min(n, len(pairs)):
                 for f in fams:
